@@ -639,10 +639,11 @@ func c12JudgeProgram(ex c12Expect, t *mtype, v *mval, o Obs, pathCapable bool) (
 			return [][2]string{{cc, o.String()}}, "crash"
 		}
 		// the cast admitted the value and the typed code that followed crashed the host
+		// (the class keeps the HOST-PANIC prefix: on the plain build such a case kills the worker)
 		if ex.Must == "reject" {
-			add("CAST:admitted-nonconforming", fmt.Sprintf("value %s does not conform to `%s` (offending: %s) but was admitted; the typed code using it then crashed the host: %s", v, t, offString(ex.Offenders), o.String()))
+			add("HOST-PANIC(after admission):CAST:admitted-nonconforming", fmt.Sprintf("value %s does not conform to `%s` (offending: %s) but was admitted; the typed code using it then crashed the host: %s", v, t, offString(ex.Offenders), o.String()))
 		} else {
-			add("CAST:admitted-value-wrong", fmt.Sprintf("the admitted value (expected %s) crashed the typed code using it: %s", ex.Val, o.String()))
+			add("HOST-PANIC(after admission):CAST:admitted-value-wrong", fmt.Sprintf("the admitted value (expected %s) crashed the typed code using it: %s", ex.Val, o.String()))
 		}
 		return fails, "admitted-then-crash"
 	}
@@ -692,12 +693,29 @@ func c12JudgeProgram(ex c12Expect, t *mtype, v *mval, o Obs, pathCapable bool) (
 	return
 }
 
+// Every program case runs on one backend only (the low bit of the index selects it): on the
+// plain build a Go panic inside a VM core kills the worker process, so a case must not mix
+// the two backends' failures if each failure is to be reproduced there.
+var backendNames = []string{"tree", "vm"}
+
+func runOn(backend string, a Analyzed, r *Result) Obs {
+	if backend == "tree" {
+		r.Trans(2)
+		return RunTree(a, defaultOpts())
+	}
+	o := RunVM(a, defaultOpts())
+	r.Obs(o)
+	r.Trans(3)
+	return o
+}
+
 func c12ProgScenario(rt c12Route) Scenario {
 	return Scenario{
 		Name:  "prog-" + rt.Name,
-		Count: func(tier string) int { return c12Universe(tier).count() },
+		Count: func(tier string) int { return 2 * c12Universe(tier).count() },
 		Run: func(tier string, idx int, r *Result) {
-			v, t := c12Universe(tier).pair(idx)
+			backend := backendNames[idx%2]
+			v, t := c12Universe(tier).pair(idx / 2)
 			text, ok, why := c12Program(rt, v, t)
 			if !ok {
 				r.Note("route-"+rt.Name+"-inapplicable:"+why, 1)
@@ -722,19 +740,13 @@ func c12ProgScenario(rt c12Route) Scenario {
 				return
 			}
 			ex := c12Expectation(v, t, rt.Allow)
-			tags := []string{"route:" + rt.Name}
-			ot := RunTree(a, defaultOpts())
-			fails, outT := c12JudgeProgram(ex, t, v, ot, false)
-			c12Report(r, fails, append([]string{"backend:tree"}, tags...), v, t, ex, cas)
-			ov := RunVM(a, defaultOpts())
-			r.Obs(ov)
-			fails, outV := c12JudgeProgram(ex, t, v, ov, true)
-			c12Report(r, fails, append([]string{"backend:vm"}, tags...), v, t, ex, cas)
-			r.Trans(4)
-			r.Outcome(ex.Must + "/vm:" + outV + "/tree:" + outT)
-			r.Distinct(rt.Name + "|" + firstMismatch(v, t) + "|" + ex.Must + "|" + outV + "|" + outT + "|" + ov.Out)
+			o := runOn(backend, a, r)
+			fails, out := c12JudgeProgram(ex, t, v, o, backend == "vm")
+			c12Report(r, fails, []string{"backend:" + backend, "route:" + rt.Name}, v, t, ex, "// backend: "+backend+"\n"+cas)
+			r.Outcome(ex.Must + "/" + backend + ":" + out)
+			r.Distinct(rt.Name + "|" + backend + "|" + firstMismatch(v, t) + "|" + ex.Must + "|" + out + "|" + o.Out)
 			if ex.Must == "open" || ex.Must == "may" {
-				r.Note("open:"+ex.Why+":vm-"+outV+",tree-"+outT, 1)
+				r.Note("open:"+ex.Why+":"+backend+"-"+out, 1)
 			}
 		},
 	}
@@ -862,10 +874,14 @@ func c12HostOutcome(ex c12Expect, t *mtype, v *mval, o Obs, hp string, tags []st
 		return "refused"
 	}
 	if o.Class != "ok" || admittedThenCrash {
+		pre := ""
+		if admittedThenCrash {
+			pre = "HOST-PANIC(after admission):"
+		}
 		if ex.Must == "reject" {
-			add("CAST:admitted-nonconforming", fmt.Sprintf("value %s does not conform to `%s` (offending: %s) but the call was performed and ended with %s", v, t, offString(ex.Offenders), o.String()))
+			add(pre+"CAST:admitted-nonconforming", fmt.Sprintf("value %s does not conform to `%s` (offending: %s) but the call was performed and ended with %s", v, t, offString(ex.Offenders), o.String()))
 		} else {
-			add("CAST:admitted-value-wrong", fmt.Sprintf("the call was admitted (expected value %s) but ended abnormally: %s", ex.Val, o.String()))
+			add(pre+"CAST:admitted-value-wrong", fmt.Sprintf("the call was admitted (expected value %s) but ended abnormally: %s", ex.Val, o.String()))
 		}
 		return "admitted-then-" + o.Class
 	}
